@@ -180,6 +180,9 @@ pub struct KeyGen {
     /// one short of full, or just grown (right after start or after a clear)
     pub fill_target: Option<usize>,
     pub fill_pct: u64,
+    /// C12: make sure the run contains a clear (at this generated step)
+    pub forced_clear_at: Option<usize>,
+    pub generated: usize,
 }
 
 const W_INS: usize = 0;
@@ -256,6 +259,8 @@ impl KeyWorld {
             sweep_after_mut: 0,
             fill_target: None,
             fill_pct: 0,
+            forced_clear_at: None,
+            generated: 0,
         }
     }
 
@@ -306,6 +311,9 @@ impl KeyWorld {
         g.fill_pct = *r.pick(&[0, 0, 25, 50, 100]);
         if r.below(100) < g.fill_pct / 2 {
             g.fill_target = Some(Self::draw_fill_target(cfg, r));
+        }
+        if cfg.has(O_TWIN) {
+            g.forced_clear_at = Some(r.below(12) as usize);
         }
         g.export_at_end = cfg.has(O_KEXPORT) || cfg.has(O_CAP) || ((cfg.has(O_CRASH) || cfg.has(O_TWIN) || cfg.has(O_TORN)) && r.chance(1, 2));
         g
@@ -1261,6 +1269,12 @@ impl World for KeyWorld {
     fn gen(&mut self, r: &mut Rng, _ctx: &mut RunCtx, remaining: usize) -> Op {
         if remaining == 1 && self.gen.export_at_end {
             return self.gen_final_export(r);
+        }
+        self.gen.generated += 1;
+        if self.gen.forced_clear_at == Some(self.gen.generated - 1) {
+            let restart = if r.chance(1, 2) && self.now > 0 { r.range(0, self.now as i64 - 1) as i32 } else { -1 };
+            self.gen.events.clear();
+            return Op::KClear { restart };
         }
         while let Some(op) = self.gen.pending.pop_front() {
             if self.legal(&op) {
